@@ -277,6 +277,7 @@ def analyze(ctx, want):
     ctx.analysed_fn(ce)
     ex, paths = run_fn(ce, F, BaseModel())
     rows = {}
+    rows_raw = {}
     for p in ret_paths(paths):
         ds = [(c, o) for c, o in p.conds if c[0] == "discr"]
         if not ds:
@@ -289,25 +290,52 @@ def analyze(ctx, want):
         r = p.end[1]
         extra = [(S.fstr(c), o) for c, o in p.conds if c[0] != "discr"]
         rows.setdefault((a, b), []).append((extra, r))
+        rows_raw.setdefault((a, b), []).append(([(c, o) for c, o in p.conds if c[0] != "discr"], r))
     def same_variant_rows(v):
         return rows.get((v, v), [])
-    for v in ("ClassUnicode", "ClassPerl", "ClassBracketed"):
+    # Equality of two class nodes of the same kind decides whether a class id is reused (C02: the id on a
+    # transition must stand for the pattern's own class).  Sound iff eq==true implies the same set of chars:
+    # every accepting path must have compared either the whole node (printed or derived ==, spans may
+    # over-distinguish, which is harmless) or every field that carries meaning.  Field tables are those of the
+    # pinned regex-syntax ast (an external crate a /repo change cannot alter); `span` never carries meaning and
+    # Literal.kind only records how the char was written.
+    MEANING = {"ClassUnicode": {"negated", "kind"}, "ClassPerl": {"negated", "kind"}, "ClassBracketed": {"negated", "kind"}, "Literal": {"c"}}
+    def eq_atom(t, v):
+        """-> set of fields compared, {'*'} for the whole node, or None if t is not a self/other equality"""
+        l = r = None
+        if t[0] == "binop" and t[1] == "Eq":
+            l, r = t[2], t[3]
+        elif t[0] == "app" and re.search(r"PartialEq(<[^>]*>)?>::eq$", str(t[1])) and len(t[2]) == 2:
+            l, r = t[2]
+        if l is None:
+            return None
+        ls, rs_ = S.fstr(l), S.fstr(r)
+        if "other.0" in ls and "self.0" in rs_:
+            ls, rs_ = rs_, ls
+        if "self.0" not in ls or "other.0" not in rs_ or ls.replace("self.0", "X") != rs_.replace("other.0", "X"):
+            return None
+        fs = set(re.findall(r"as %s\)\.0\.(\w+)" % v, ls))
+        return fs or {"*"}
+    for v, need in MEANING.items():
         rs = same_variant_rows(v)
-        ok = len(rs) == 1 and rs[0][1][0] == "binop" and rs[0][1][1] == "Eq" and "self.0" in S.fstr(rs[0][1][2]) and "other.0" in S.fstr(rs[0][1][3]) and not rs[0][0]
-        if ok:
-            # both sides are the same function of the printed AST
-            l_, r_ = S.fstr(rs[0][1][2]).replace("self.0", "X"), S.fstr(rs[0][1][3]).replace("other.0", "X")
-            ok = l_ == r_
-        ob("C02.f", "class-dedup-equality:%s-compares-the-printed-ast" % v, ok, "eq := %s" % (S.fstr(rs[0][1])[:120] if rs else None), ce.loc())
-    rs = same_variant_rows("Literal")
-    fields = set()
-    for extra, r in rs:
-        for t, o in extra:
-            for f_ in re.findall(r"Literal\)\.0\.(\w+)", t):
-                fields.add(f_)
-        for f_ in re.findall(r"Literal\)\.0\.(\w+)", S.fstr(r)):
-            fields.add(f_)
-    ob("C02.f", "class-dedup-equality:Literal-compares-char-and-kind", fields == {"c", "kind"} and any(r == ("bool", False) for _, r in rs), "literal equality reads %s" % sorted(fields), ce.loc())
+        bad = []
+        for extra_c, r in [(p_c, p_r) for p_c, p_r in rows_raw.get((v, v), [])]:
+            if r == ("bool", False):
+                continue
+            got = set()
+            for c, o in extra_c:
+                a_ = eq_atom(c, v)
+                if a_ and o is True:
+                    got |= a_
+            if r != ("bool", True):
+                a_ = eq_atom(r, v)
+                if a_ is None:
+                    bad.append("result %s is not an equality of the two nodes" % S.fstr(r)[:80])
+                    continue
+                got |= a_
+            if "*" not in got and not need <= got:
+                bad.append("may answer 'equal' after comparing only %s (meaning is carried by %s)" % (sorted(got), sorted(need)))
+        ob("C02.f", "class-dedup-equality:%s-equal-only-if-same-meaning" % v, bool(rs) and not bad, "; ".join(bad) or "%d path(s)" % len(rs), ce.loc())
     for v in ("Dot", "Empty"):
         rs = same_variant_rows(v)
         if rs:
